@@ -1,4 +1,5 @@
 import OmbottModel.Model.BodyMixin
+import OmbottModel.Model.BodySpool
 import OmbottModel.Lemmas.Body
 import OmbottModel.Lemmas.Chunked
 import OmbottModel.Lemmas.PyInt
@@ -185,7 +186,43 @@ theorem text_over_threshold_refused (q : Req) (sk : Sink) (p : Nat) (cl : Int)
     have : q.cfg.memfile < min (q.cfg.memfile + 1) sk.body.length := by omega
     simp [this]
 
+/-- **no spool file ⇒ nothing large in memory**: when `TemporaryFile()` raises at the switch (`bodyReadF`), under
+either framing and whatever bytes arrive, a body that `_body_read` still returns is an in-memory buffer of at most
+`max_memfile_size` bytes (and within `max_body_size`): a body over the threshold is never kept in memory because the
+disk was not available — the request fails instead. -/
+theorem spool_fault_nothing_large_in_memory (buf : Nat) (cl : Int) (chunked : Bool) (max : Option Nat) (r : Rec)
+    (sk : Sink) (h : (bodyReadF buf cl chunked max r).1 = .body sk) :
+    sk.body.length ≤ buf ∧ sk.isTemp = false ∧ overMax max sk.body.length = false := by
+  unfold bodyReadF at h
+  simp only at h
+  split at h
+  · rename_i sk' hb
+    have hsk : sk' = sk := by injection h
+    subst hsk
+    obtain ⟨h1, _, h3⟩ := spooled_iff_large buf cl chunked (some (capOf max buf)) r sk' hb
+    have hle : sk'.body.length ≤ capOf max buf := by
+      simp only [overMax, decide_eq_false_iff_not] at h3; omega
+    have hcap : capOf max buf ≤ buf := by unfold capOf; split <;> omega
+    refine ⟨by omega, ?_, ?_⟩
+    · cases hT : sk'.isTemp
+      · rfl
+      · have := h1.mp hT; omega
+    · cases max with
+      | none => rfl
+      | some m =>
+        have : capOf (some m) buf ≤ m := by unfold capOf; simp only; omega
+        simp only [overMax, decide_eq_false_iff_not]; omega
+  · split at h
+    · split at h <;> cases h
+    · cases h
+  · cases h
+
 section NonVacuity
+/-- `spool_fault_nothing_large_in_memory`: 3 bytes under a threshold of 4 are returned with the temp directory gone -/
+example : ∃ sk, (bodyReadF 4 3 false none { st := ⟨[1, 2, 3], []⟩ }).1 = .body sk := by
+  have hb := within_limit_accepted 4 4 3 { st := ⟨[1, 2, 3], []⟩ } (by decide) (by decide)
+  have hc : capOf none 4 = 4 := rfl
+  exact ⟨bodyOf 4 (List.take (Int.toNat 3) [1, 2, 3]), by simp only [bodyReadF, hc, hb]⟩
 /-- `oversize_rejected`: 10 bytes on offer, Content-Length 8, limit 5, buffer 4 -/
 example : (0 : Nat) < 4 ∧ min (8 : Int).toNat (List.replicate 10 (7 : UInt8)).length > 5 := by decide
 /-- `oversize_rejected_chunked`: second chunk `3\r\nabc…` after a 2-byte chunk, limit 4 -/
